@@ -16,6 +16,11 @@
    oracles with the formulas of the C++ over an [Arith F]; with [FA] the result is
    bit-comparable with the implementation, with [RA] it is the real-number reading.
 
+   One switch: [fx : bool] selects how deleteSelectedNodes removes the segments of a deleted point
+   ([false]: ToggleSelect(), the code before findings/C16-F1-fix.diff; [true]: IsSelected = true, the
+   repaired code).  The correspondence runs a probe on the implementation and evaluates the variant
+   the working tree exhibits.
+
    Two ghost flags are carried in the state (they do not exist in the C++):
    [d_oof]    the fuel of the recursive addSegment ran out (the model's answer is then void);
    [d_dsplit] some addNode call split two segments that share an end point (this is the only
@@ -283,9 +288,16 @@ Section Core.
   Definition dec_above (i : nat) (s : seg) : seg :=
     mkSeg (if Nat.ltb i (s0 s) then s0 s - 1 else s0 s) (if Nat.ltb i (s1 s) then s1 s - 1 else s1 s)
           (ssel s) (sgrp s) (sprop s).
-  (* body of the do-loop for a selected node i *)
+  (* body of the do-loop for a selected node i.
+     [fx = false] is the code as it stands: "first remove all lines that contain the point" is done by
+     linelist[j]->ToggleSelect() followed by deleteSelectedSegments(), which UN-selects (and keeps) a
+     segment that was already selected.  [fx = true] is the repaired code
+     (findings/C16-F1-fix.diff): IsSelected = true.  The correspondence (tools/props/c16.py) decides
+     which of the two the working tree is. *)
+  Variable fx : bool.
   Definition delete_node_at (st : drawingT) (i : nat) : drawingT :=
-    let st1 := set_segs st (map (fun s => if touches i s then ssetsel (negb (ssel s)) s else s) (d_segs st)) in
+    let st1 := set_segs st (map (fun s => if touches i s then ssetsel (if fx then true else negb (ssel s)) s else s)
+                                (d_segs st)) in
     let st2 := deleteSelectedSegments st1 in
     let st3 := set_nodes st2 (remove_nth (d_nodes st2) i) in
     set_segs st3 (map (dec_above i) (d_segs st3)).
